@@ -99,6 +99,12 @@ def build():
     u.raw("}")
     span = gb.impl_span(r'^impl GpuBackend$')
     u.raw("impl GpuBackend {")
+    # initial state (third session): the proxy talks on the endpoint it was given and has no recorded failure
+    u.extracted_fn(gb, "new", within=span,
+                   sig_rw=[("R3", r'Endpoint<VhostUserGpuMsgHeader<GpuBackendReq>>', 'Endpoint'), ("R3", r'-> Self\b', '-> GpuBackend')],
+                   body_rw=[("R8", r'\bSelf \{\s*node:\s*Arc::new\(Mutex::new\((BackendInternal \{[^{}]*\})\)\),?', r'GpuBackend { inner: \1, acq: Ghost(0nat),')],
+                   contract="""
+        ensures r.inner.sock == ep, r.inner.error is None, // [C10,C06] a new proxy has no recorded failure and uses the caller's endpoint""")
     for name, c in METHODS.items():
         u.extracted_fn(gb, name, within=span, sig_rw=SIG_RW, body_rw=BODY_RW, contract=c)
     u.raw("}")
